@@ -85,11 +85,15 @@ Proof.
   intros H. unfold load_dump. destruct (stored (sr (nd s))) as [[sn|]|]; try exact H.
   destruct (cl && _); [exact H|].
   destruct (_ <? _); [exact H|].
-  match goal with |- allwf (if dyn (cf e) then update_cluster ?l ?s4 else _) =>
-    assert (E : outs s4 = outs s) end.
-  { cbn [outs upd].
-    repeat (match goal with |- context [match ?x with _ => _ end] => destruct x end; cbn [outs upd]); reflexivity. }
-  destruct (dyn (cf e)); [apply aw_update_cluster|]; apply (allwf_outs s); auto.
+  cbv zeta.
+  match goal with |- context [update_cluster ?l ?s4] => set (s5 := s4) end.
+  assert (E : outs s5 = outs s).
+  { subst s5. cbn [outs upd].
+    repeat (match goal with |- context [if ?b then _ else _] => destruct b end; cbn [outs upd]); reflexivity. }
+  clearbody s5.
+  destruct (dyn (cf e)); [|apply (allwf_outs s); auto].
+  match goal with |- context [if ?b then apply_membership _ _ _ else _] => destruct b end;
+    [apply aw_apply_membership|]; apply aw_update_cluster; apply (allwf_outs s); auto.
 Qed.
 
 Lemma aw_ae_commit c v s : allwf s -> allwf (ae_commit c v s).
